@@ -182,13 +182,13 @@ func (h *histProp) Run(seed uint64, tier string) *Result {
 	if v != nil {
 		// re-check that the recorded case reproduces, then shrink it
 		v2, _ := h.exec(c.clone(), false)
-		if v2 == nil || v2.Oracle != v.Oracle {
+		if v2 == nil || v2.Signature != v.Signature {
 			res.Internal = fmt.Sprintf("violation %q did not reproduce from its own recorded history (replay gave %v)", v.Oracle, v2)
 			return res
 		}
 		min := minimise(c, func(cand *Case) bool {
 			vv, _ := h.exec(cand.clone(), false)
-			return vv != nil && vv.Oracle == v.Oracle
+			return vv != nil && vv.Signature == v.Signature
 		})
 		vm, stm := h.exec(min.clone(), false)
 		if vm != nil {
